@@ -264,7 +264,7 @@ fn main() {
                         continue;
                     }
                 }
-                lines.push(format!("VIOLATION property={} replay={}  # site={} key={} :: {}", prop.id, p.display(), v.site, v.key, v.what));
+                lines.push(format!("VIOLATION property={} replay={}  # site={} key={} :: {}", prop.id, p.display(), v.site, v.key.replace('\n', " "), v.what.replace('\n', " / ")));
             }
             Err(e) => {
                 eprintln!("machinery: cannot write replay: {e}");
